@@ -1,10 +1,16 @@
 /-
 C17 — The bridge listens exactly while running and leaves nothing behind.
+Two layers.  `Model.Life.bridgeStep` is the abstract machine the property is stated on (start either binds all configured
+ports or changes nothing).  `Model.LifeC.bridgeStepC` follows bridge.py statement by statement — the `_transports` dictionary,
+the loop binding the ports one by one, `started_ports`, the rollback in the `except` clause, `stop`'s `is_closing()` test —
+and is what the compiled driver runs against the real bridge.  `code_refines` proves that the second refines the first for
+every action sequence, so every theorem below holds of the code-level bridge (`code_*`).
 PARTIAL: the model is the bookkeeping (which ports this bridge holds, the running flag, ports held by others);
 that closing a transport releases the port once the loop has cycled, and that a bind fails iff the port is held, are
 runtime facts (`bindFailsIffHeld`) observed by the correspondence harness on real sockets, not proved.
 -/
 import Switcher.Model.Life
+import Switcher.Proofs.LifeC
 namespace Props.C17
 open Model
 
@@ -178,6 +184,49 @@ theorem restartable (s : BridgeState) (hn : s.ports.Nodup) (hfree : ∀ p ∈ s.
     exact hm.2 hp
   simp only [bridgeStep, hall]
   simp [hn]
+
+/-! ### the code-level bridge (dictionary, bind loop, rollback) refines the abstract machine -/
+
+/-- REFINEMENT: for every action sequence the code-level bridge makes exactly the observations of the abstract machine, and what
+    it listens on / whether it says it is running is the abstract machine's state -/
+theorem code_refines (ports : List Nat) (as : List BridgeAct) :
+    (bridgeRunActsC (bridgeInitC ports) as).2 = (bridgeRunActs (bridgeInit ports) as).2 ∧
+    (bridgeRunActsC (bridgeInitC ports) as).1.abs = (bridgeRunActs (bridgeInit ports) as).1 := by
+  obtain ⟨h1, h2, _⟩ := Proofs.LifeC.run_refines as (bridgeInitC ports) (Proofs.LifeC.cinv_init ports)
+  exact ⟨h1, h2⟩
+
+/-- hence the invariant of the property holds of the code-level bridge after every action sequence -/
+theorem code_inv (ports : List Nat) (as : List BridgeAct) : Inv (bridgeRunActsC (bridgeInitC ports) as).1.abs := by
+  rw [(code_refines ports as).2]; exact inv_run _ as (inv_init ports)
+
+/-- THE ROLLBACK: when binding some port fails, after the `except` clause exactly the transports that were open before this call
+    are open (none, if the bridge was stopped), the flag is what it was, and the error is raised — the loop may have bound any
+    number of ports before the failing one -/
+theorem code_failed_start (c : BridgeC) (h : Proofs.LifeC.CInv c) (hfail : (bridgeStepC c .start).2 = .raiseOSError) :
+    (bridgeStepC c .start).1.openT = c.openT ∧ (bridgeStepC c .start).1.running = c.running := by
+  have hs := Proofs.LifeC.startLoop_spec c c.ports c [] (Proofs.LifeC.pending_refl c h)
+  simp only [bridgeStepC] at hfail ⊢
+  by_cases hc : (c.ports.all c.free && decide c.ports.Nodup) = true
+  · rw [if_pos hc] at hs; rw [hs.1] at hfail; cases hfail
+  · rw [if_neg hc] at hs; exact ⟨hs.2.1, hs.2.2.2.2.1⟩
+
+/-- `stop` closes every transport of the bridge, whatever the history -/
+theorem code_stop_closes (ports : List Nat) (as : List BridgeAct) :
+    (bridgeStepC (bridgeRunActsC (bridgeInitC ports) as).1 .stop).1.openT = [] := by
+  obtain ⟨_, _, h3⟩ := Proofs.LifeC.run_refines as (bridgeInitC ports) (Proofs.LifeC.cinv_init ports)
+  exact Proofs.LifeC.stop_closes_all _ h3
+
+/- the defect repaired by commit baa51b5 (F6), as the code-level model without the rollback: the first port stays bound although
+   the start failed and the bridge says it is not running -/
+def startNoRollback (c : BridgeC) : List Nat → BridgeC × Out
+  | [] => ({ c with running := true }, .ok)
+  | p :: ps => if c.free p then startNoRollback (c.bind p) ps else (c, .raiseOSError)
+example : (startNoRollback { bridgeInitC [1, 2] with others := [2] } [1, 2]).1.openPorts = [1] ∧
+    (startNoRollback { bridgeInitC [1, 2] with others := [2] } [1, 2]).1.running = false := by decide
+example : (bridgeStepC { bridgeInitC [1, 2] with others := [2] } .start).1.openPorts = [] := by decide
+
+example : (bridgeRunActsC (bridgeInitC [1, 2]) [.occupy 2, .start, .send 1, .release 2, .start, .send 1, .stop, .send 1]).2 =
+    [.ok, .raiseOSError, .dropped, .ok, .ok, .delivered, .ok, .dropped] := by decide
 
 example : (bridgeRunActs (bridgeInit [1, 2]) [.occupy 2, .start, .send 1, .release 2, .start, .send 1, .stop, .send 1]).2 =
     [.ok, .raiseOSError, .dropped, .ok, .ok, .delivered, .ok, .dropped] := by decide
